@@ -62,6 +62,12 @@ func (s *Sim) execFault(d Decision) bool {
 	}
 	s.stop = st
 	s.gwStopped = true
+	// Stop closes every connection at once: their readers, workers and the
+	// cache workers then run side by side. From here on every goroutine of the
+	// gateway stops before each lock it takes while holding none (rule R8), so
+	// that their interleaving, too, is the scheduler's choice and not the Go
+	// runtime's.
+	s.Cfg.P.Faults["lockyield"] = true
 	s.stat("fault."+d.A, 1)
 	return true
 }
